@@ -103,6 +103,13 @@ def run(e: Engine, rep: Report):
                           'slimta.redisstorage', 'slimta.cloudstorage'],
         'a second queue loads and attempts the messages of the first: the '
         'same recipients are attempted by both at the same time')
+    rep.rule('R3.13', 'set_recipients_delivered records the marks on every '
+             'path: in each backend every normal return lies behind a write '
+             'to the substrate (table MARK_WRITERS) - a call that "has '
+             'nothing new to do" by some test of the stored state returns '
+             'with settled recipients still on record as outstanding')
+    rep.tables.add('c03.MARK_WRITERS')
+    r313(e, rep)
     rep.floor('R3.1', 2, 'attempt spawn sites')
     rep.floor('R3.7', 2, 'release sites of the in-flight mark')
 
@@ -896,3 +903,79 @@ def r39(e: Engine, rep: Report, rule: str):
     else:
         rep.ok(rule, QUEUE, 'methods of Queue only read what they are '
                'handed', reason='%d methods with parameters looked at' % nm)
+
+
+# ------------------------------------------------------------------- R3.13
+# what writes a stored record, per backend: (attribute of self, method) or
+# (attribute, None) for an item assignment `self.<attribute>[key] = ...`
+MARK_WRITERS = {
+    'slimta.queue.dict.DictStorage': [('env_db', None), ('meta_db', None)],
+    'slimta.diskstorage.DiskStorage': [('ops', 'write_meta'),
+                                       ('ops', 'write_env')],
+    'slimta.redisstorage.RedisStorage': [('redis', 'hset'),
+                                         ('redis', 'hmset'),
+                                         ('redis', 'execute')],
+    'slimta.cloudstorage.CloudStorage': [('obj_store', 'set_message_meta')],
+}
+
+
+def r313(e: Engine, rep: Report):
+    n = 0
+    for cq in sorted(e.p.subclasses(STORAGE)):
+        ws = MARK_WRITERS.get(cq)
+        c = e.p.classes.get(cq)
+        if ws is None or c is None or \
+                'set_recipients_delivered' not in c.methods:
+            continue
+        ctx = e.method_ctx(cq, 'set_recipients_delivered')
+        g = e.build(ctx, raises=lambda b, nn, r: set(),
+                    inline=e.inline_same_self(), max_depth=3)
+        where = ctx.func.qname
+        rep.functions.add(where)
+
+        def is_write(nd):
+            if nd.kind == 'call' and isinstance(nd.ast.func, ast.Attribute):
+                recv = path_of(nd.ast.func.value, nd.frame) or ''
+                for attr, meth in ws:
+                    if meth is not None and nd.ast.func.attr == meth and (
+                            recv == 'self.' + attr or
+                            recv.startswith('self.' + attr + '.')):
+                        return True
+                # a pipeline / batch object of the substrate
+                if nd.ast.func.attr in [m for a, m in ws if m] and \
+                        isinstance(nd.ast.func.value, ast.Name):
+                    return True
+            if nd.kind == 'stmt' and isinstance(nd.ast, (ast.Assign,
+                                                        ast.AugAssign)):
+                tg = nd.ast.targets if isinstance(nd.ast, ast.Assign) \
+                    else [nd.ast.target]
+                for t in tg:
+                    if isinstance(t, ast.Subscript) and any(
+                            meth is None and path_of(t.value, nd.frame) ==
+                            'self.' + attr for attr, meth in ws):
+                        return True
+            return False
+        before = dataflow.must_events_before(
+            g, lambda nd: ['w'] if is_write(nd) else [])
+        n += 1
+        rep.evaluations += 1
+        st = before.get(g.exit.id)
+        ok = st is None or 'w' in st
+        w = None
+        if not ok:
+            pth = dataflow.find_path(
+                g, g.entry, lambda x: x is g.exit, avoid=is_write,
+                edge_ok=lambda a, l, s2: not isinstance(l, tuple))
+            w = dataflow.render_path(pth, 12) if pth else None
+        rep.check(ok, 'R3.13', where,
+                  'the marks are written on every path',
+                  'set_recipients_delivered of %s can return without '
+                  'having written to its substrate: the recipients the '
+                  'queue has just settled stay outstanding in storage and '
+                  'are attempted again in the next round' % cq.rpartition(
+                      '.')[2], loc=ctx.func.loc(),
+                  reason='a substrate write on every normal path',
+                  witness=w)
+    if n < 3:
+        rep.error('anchor vanished: set_recipients_delivered of the storage '
+                  'backends (%d < 3)' % n)
